@@ -237,6 +237,10 @@ def run_discover2(st: Stats, pidx: int):
                         prob = f"discover raised {type(out[1]).__name__} (only CloudError is a documented cloud failure)"
                     elif clean:
                         prob = f"discover raised CloudError although the fault pattern recovers within the retry budget: {str(out[1])[:60]}"
+                elif not clean:
+                    prob = "a cloud failure (HTTP error / API error / exhausted timeouts) did not surface as a CloudError"
+                elif max(srv.counts.values()) > 3 * len(ids) + 3:
+                    prob = f"more attempts than the retry budget allows: {srv.counts}"
                 else:
                     got = sorted((d.id, d.token, d.key) for d in out[1])
                     want = sorted((did, t.hex(), k.hex()) for did, t, k in devs)
